@@ -36,6 +36,7 @@ ASSUMPTIONS = [
 ]
 DECIDING = ["cached_runs_compared", "cache_gets", "faults_injected"]
 THOROUGH_SHARDS = 12
+REPLAY_BY_SEED = True  # histories are regenerated from the seed; see main.py
 
 
 class RefLRU:
